@@ -48,7 +48,8 @@ func importLogs(w http.ResponseWriter, r *http.Request) {
 				api.NoContent(w)
 				return
 			} else {
-				common.InternalServerError(w, r, fmt.Errorf("reading input stream: %w", err))
+				// the body is not a valid stream of logs: client error
+				api.BadRequest(w, common.ErrValidation, fmt.Errorf("reading input stream: %w", err))
 				return
 			}
 		}
